@@ -173,11 +173,20 @@ pub fn run(prop: &str, tier: Tier) -> i32 {
         extra.push(("loom_lanes", json!(lanes)));
         extra.push(("loom_executions", json!(total)));
     }
+    if prop == "C04" {
+        let n = crate::e4::c04real::run(&rep);
+        extra.push(("real_socket_transport_closure_cases", json!(n)));
+    }
     finish_e1(rep, t, extra, e1_assumptions())
 }
 
 /// Re-execute a replay file twice and print the observations.
 pub fn replay(v: &serde_json::Value) -> i32 {
+    if v["replay"]["engine"] == "c04real" {
+        println!("{}", serde_json::to_string_pretty(&v["replay"]).unwrap());
+        println!("(real-socket lane of C04: re-run ./check C04 quick; transport and variant above identify the case)");
+        return 0;
+    }
     if v["replay"]["engine"] == "e2" {
         println!("{}", serde_json::to_string_pretty(&v["replay"]).unwrap());
         println!("(loom lane: re-run ./check C05 quick; loom prints no schedule for recorded violations, the shape and bound above identify the lane)");
